@@ -954,6 +954,265 @@ func (e *rtEngine) configureFees() {
 	}
 }
 
+// ---------------------------------------------------------------- genesis export / import (C19)
+
+// pmRawStore: every key of the poolmanager KV store (hex) with its value (hex).
+func pmRawStore(h *H, ctx sdk.Context) map[string]string {
+	store := ctx.KVStore(h.App.GetKey(pmtypes.StoreKey))
+	it := store.Iterator(nil, nil)
+	defer it.Close()
+	out := map[string]string{}
+	for ; it.Valid(); it.Next() {
+		out[fmt.Sprintf("%x", it.Key())] = fmt.Sprintf("%x", it.Value())
+	}
+	return out
+}
+
+// pmExportImportReal: the REAL x/poolmanager ExportGenesis -> JSON -> every key of the poolmanager store deleted -> the REAL
+// InitGenesis on a cache context, written back when nothing panicked; then the two in-memory maps of the keeper are rebuilt from
+// the store as a node starting on the imported state does (keeper.go BeginBlock).
+func pmExportImportReal(h *H) (ok bool, msg string) {
+	k := h.App.PoolManagerKeeper
+	cdc := h.App.AppCodec()
+	cctx, write := h.Ctx.CacheContext()
+	func() {
+		defer func() {
+			if r := recover(); r != nil {
+				msg = fmt.Sprint(r)
+			}
+		}()
+		bz := cdc.MustMarshalJSON(k.ExportGenesis(cctx))
+		store := cctx.KVStore(h.App.GetKey(pmtypes.StoreKey))
+		var keys [][]byte
+		it := store.Iterator(nil, nil)
+		for ; it.Valid(); it.Next() {
+			keys = append(keys, append([]byte{}, it.Key()...))
+		}
+		it.Close()
+		for _, key := range keys {
+			store.Delete(key)
+		}
+		var gs pmtypes.GenesisState
+		cdc.MustUnmarshalJSON(bz, &gs)
+		k.InitGenesis(cctx, &gs)
+		ok = true
+	}()
+	if ok {
+		write()
+		k.VerifRestartShareCaches(h.Ctx)
+	}
+	return ok, msg
+}
+
+// pmStoreDiff classifies the raw-store differences of an export/import by key prefix: class -> (count, sample).
+func pmStoreDiff(pre, post map[string]string) map[string][]string {
+	diff := map[string][]string{}
+	note := func(key, what string) {
+		pfx := key
+		if len(pfx) > 2 {
+			pfx = pfx[:2]
+		}
+		diff[pfx+":"+what] = append(diff[pfx+":"+what], key)
+	}
+	for key, v := range pre {
+		pv, ok := post[key]
+		if !ok {
+			note(key, "missing")
+		} else if pv != v {
+			note(key, "changed")
+		}
+	}
+	for key := range post {
+		if _, ok := pre[key]; !ok {
+			note(key, "extra")
+		}
+	}
+	return diff
+}
+
+func hexStr(h string) string {
+	var b []byte
+	fmt.Sscanf(h, "%x", &b)
+	return string(b)
+}
+
+// pmJudgeStoreDiff: the export/import oracle shared by the engines `router` and `pm`.  Predicted by Props/C19PoolManager and
+// therefore keyed: overrides EQUAL to the default taker fee are dropped by the message-path setter InitGenesis uses; the taker-fee
+// share agreements (0x0B), registered alloyed pools (0x0C) and skim accumulators (0x0A) have no genesis field; the empty volume
+// entry InitGenesis writes for a pool that never traded (raw store only: GetTotalVolumeForPool answers the empty coins either way).
+// Anything else is an unpredicted difference.  `extra` is appended to the detail of the override finding (the directed witness).
+func pmJudgeStoreDiff(o *Out, h *H, pre, post map[string]string, defFee *big.Int, extra string) (droppedPairs []string) {
+	diff := pmStoreDiff(pre, post)
+	var classes []string
+	for d := range diff {
+		classes = append(classes, d)
+	}
+	sort.Strings(classes)
+	var shareKeys []string
+	for _, d := range classes {
+		keys := diff[d]
+		sort.Strings(keys)
+		switch {
+		case d == "04:missing":
+			var stale, other []string
+			for _, key := range keys {
+				var dp sdk.DecProto
+				var raw []byte
+				fmt.Sscanf(pre[key], "%x", &raw)
+				if err := dp.Unmarshal(raw); err == nil && dp.Dec.BigInt().Cmp(defFee) == 0 {
+					parts := strings.Split(hexStr(key), "|")
+					stale = append(stale, parts[1]+">"+parts[2])
+				} else {
+					other = append(other, hexStr(key))
+				}
+			}
+			if len(stale) > 0 {
+				droppedPairs = stale
+				twLoss(o, "export-import:poolmanager:override-equal-to-default-dropped",
+					fmt.Sprintf("overrides %v were stored with a value equal to the default taker fee %s (set before the default was moved onto them); ExportGenesis lists them, InitGenesis -> SetDenomPairTakerFee deletes instead of writing%s", stale, defFee, extra))
+			}
+			if len(other) > 0 {
+				o.Fail("export-import:poolmanager:store-differs:04:missing", fmt.Sprint(other))
+			}
+		case d == "0a:missing" || d == "0b:missing" || d == "0c:missing":
+			for _, key := range keys {
+				shareKeys = append(shareKeys, "0x"+key[:2]+hexStr(key)[1:])
+			}
+		case d == "03:extra":
+			emptyOnly := true
+			for _, key := range keys {
+				var tv pmtypes.TrackedVolume
+				var raw []byte
+				fmt.Sscanf(post[key], "%x", &raw)
+				if err := tv.Unmarshal(raw); err != nil || len(tv.Amount) != 0 {
+					emptyOnly = false
+				}
+			}
+			if emptyOnly {
+				// raw-store only: GetTotalVolumeForPool answers the empty coins for an absent entry and for an empty one
+				o.Count("exportimport.empty-volume-entry-materialised")
+				var ids []string
+				for _, key := range keys {
+					ids = append(ids, strings.Trim(hexStr(key)[1:], "|"))
+				}
+				twLoss(o, "export-import:poolmanager:empty-volume-entry-materialised", fmt.Sprintf("pools %v never traded: no volume key (0x03|id|) before ExportGenesis, an entry with empty coins after InitGenesis (ExportGenesis lists every pool of AllPools, InitGenesis calls SetVolume for each)", ids))
+			} else {
+				o.Fail("export-import:poolmanager:store-differs:03:extra", fmt.Sprint(keys))
+			}
+		default:
+			o.Fail("export-import:poolmanager:store-differs:"+d, fmt.Sprintf("%d keys, e.g. %q", len(keys), hexStr(keys[0])))
+		}
+	}
+	if len(shareKeys) > 0 {
+		k := h.App.PoolManagerKeeper
+		ag, _ := k.GetAllTakerFeesShareAgreements(h.Ctx)
+		al, _ := k.GetAllRegisteredAlloyedPools(h.Ctx)
+		ac, _ := k.GetAllTakerFeeShareAccumulators(h.Ctx)
+		twLoss(o, "export-import:poolmanager:taker-fee-share-state-not-exported",
+			fmt.Sprintf("store keys %q existed before ExportGenesis and are gone after InitGenesis (GenesisState has no field for them); re-read after the import: AllTakerFeeShareAgreements=%d AllRegisteredAlloyedPools=%d AllTakerFeeShareAccumulators=%d", shareKeys, len(ag), len(al), len(ac)))
+	}
+	return droppedPairs
+}
+
+var rtShareDenoms = []string{"shra", "shrb"}
+
+// shareState: taker-fee share agreements on denoms outside the pool universe (no swap of the history involves them, so
+// TakerFeeSkim stays the no-op C05 assumes) through the real gov message, and skim accumulators through the store write of TakerFeeSkim.
+func (e *rtEngine) shareState() {
+	k := e.h.App.PoolManagerKeeper
+	gov := e.h.App.AccountKeeper.GetModuleAddress("gov").String()
+	for i, n := 0, 1+e.r.Intn(2); i < n; i++ {
+		d := rtShareDenoms[e.r.Intn(len(rtShareDenoms))]
+		pct := osmomath.NewDecWithPrec(int64(1+e.r.Intn(99)), 2)
+		if _, err := e.ms.SetTakerFeeShareAgreementForDenom(e.h.Ctx, &pmtypes.MsgSetTakerFeeShareAgreementForDenom{Sender: gov, Denom: d, SkimPercent: pct, SkimAddress: e.accs[2].String()}); err != nil {
+			e.o.Fail("harness:share-agreement", err.Error())
+			return
+		}
+		e.o.Count("cfg.share-agreement")
+		if e.r.Intn(2) == 0 {
+			if err := k.VerifIncreaseAccrued(e.h.Ctx, d, e.denoms[e.r.Intn(len(e.denoms))], osmomath.NewInt(int64(1+e.r.Intn(100000)))); err != nil {
+				e.o.Fail("harness:accrue", err.Error())
+			}
+			e.o.Count("cfg.share-accrual")
+		}
+	}
+}
+
+// exportImport: op `router exportimport`, then the fee in force for every customised pair and a few others (`router fee` lines, which
+// the model answers from `initGenesis (exportGenesis cfg)`), and the raw-store oracle.
+func (e *rtEngine) exportImport(extra string) {
+	o := e.o
+	pre := pmRawStore(e.h, e.h.Ctx)
+	nextBefore := e.h.App.PoolManagerKeeper.GetNextPoolId(e.h.Ctx)
+	ok, msg := pmExportImportReal(e.h)
+	if !ok {
+		o.Emit("router exportimport", "panic", true)
+		o.Fail("export-import:poolmanager:panics", msg)
+		return
+	}
+	o.Emit("router exportimport", "ok", true)
+	o.Count("exportimport")
+	post := pmRawStore(e.h, e.h.Ctx)
+	dropped := pmJudgeStoreDiff(o, e.h, pre, post, e.defFee, extra)
+	for _, p := range dropped {
+		delete(e.feeRef, p) // the imported chain has no such override any more: the pair follows the default from now on
+		o.Count("exportimport.override-equal-to-default-dropped")
+	}
+	if n := e.h.App.PoolManagerKeeper.GetNextPoolId(e.h.Ctx); n != nextBefore {
+		o.Fail("export-import:poolmanager:next-pool-id", fmt.Sprintf("%d -> %d", nextBefore, n))
+	}
+	var pairs []string
+	for p := range e.feeRef {
+		pairs = append(pairs, p)
+	}
+	pairs = append(pairs, dropped...)
+	sort.Strings(pairs)
+	for _, p := range pairs {
+		ds := strings.Split(p, ">")
+		e.checkFee(ds[0], ds[1])
+	}
+	for i := 0; i < 2; i++ {
+		ds := e.r.Perm(len(e.denoms))
+		e.checkFee(e.denoms[ds[0]], e.denoms[ds[1]])
+	}
+}
+
+// staleOverrideSequence: the directed history for the one override the import drops: setfee(pair) = x; setdefault = x (the stored
+// override now EQUALS the default); exportimport; setdefault = y; fee(pair).  The same tail (setdefault y; fee) is first run on a
+// discarded branch WITHOUT the import: there the pair keeps x.
+func (e *rtEngine) staleOverrideSequence() {
+	h, o := e.h, e.o
+	ds := e.r.Perm(len(e.denoms))
+	a, b := e.denoms[ds[0]], e.denoms[ds[1]]
+	var x, y *big.Int
+	for x == nil || x.Cmp(e.defFee) == 0 {
+		x = e.randFee()
+	}
+	for y == nil || y.Cmp(x) == 0 {
+		y = e.randFee()
+	}
+	e.setPairFee(a, b, x)
+	h.App.PoolManagerKeeper.SetParam(h.Ctx, pmtypes.KeyDefaultTakerFee, sd(x))
+	e.defFee = x
+	o.Emit(fmt.Sprintf("router setdefault %s", x), "ok", true)
+	e.checkFee(a, b)
+	// the exporting chain, had it not been exported/imported
+	bctx, _ := h.Ctx.CacheContext()
+	h.App.PoolManagerKeeper.SetParam(bctx, pmtypes.KeyDefaultTakerFee, sd(y))
+	keep := e.feeRaw(bctx, a, b)
+	e.exportImport(fmt.Sprintf("; directed: setfee %s>%s = %s; setdefault %s; [export/import]; setdefault %s; TradingPairTakerFee(%s,%s): %s without the export/import", a, b, x, x, y, a, b, keep))
+	h.App.PoolManagerKeeper.SetParam(h.Ctx, pmtypes.KeyDefaultTakerFee, sd(y))
+	e.defFee = y
+	o.Emit(fmt.Sprintf("router setdefault %s", y), "ok", true)
+	e.checkFee(a, b)
+	got := e.feeRaw(h.Ctx, a, b)
+	o.Count("exportimport.directed.stale-override")
+	if got.Cmp(keep) != 0 {
+		twLoss(o, "export-import:poolmanager:override-equal-to-default-dropped",
+			fmt.Sprintf("setfee %s>%s = %s; setdefault %s; ExportGenesis -> InitGenesis; setdefault %s; TradingPairTakerFee(%s,%s) = %s on the imported chain, %s on the exporting chain (same tail on a branch without the import)", a, b, x, x, y, a, b, got, keep))
+	}
+}
+
 // ---------------------------------------------------------------- routes
 
 // a random walk over the pool graph; avoid (mostly) pools already used.
@@ -1819,9 +2078,20 @@ func runRouter(t *testing.T, seed int64, n int, dir string) {
 			e.keys = append(e.keys, name)
 		}
 		sort.Strings(e.keys)
+		h.App.PoolManagerKeeper.VerifRestartShareCaches(h.Ctx)
 		e.setup()
 		e.priorActivity()
 		e.configureFees()
+		if r.Intn(3) == 0 {
+			e.shareState()
+		}
+		if r.Intn(4) == 0 {
+			e.exportImport("")
+		}
+		directedAt := -1
+		if r.Intn(3) == 0 {
+			directedAt = r.Intn(12)
+		}
 		nops := 12 + r.Intn(14)
 		for i := 0; i < nops && done < n; i++ {
 			if e.poolUnderfunded() {
@@ -1833,6 +2103,14 @@ func runRouter(t *testing.T, seed int64, n int, dir string) {
 			}
 			done++
 			e.opn++
+			if i == directedAt {
+				e.staleOverrideSequence()
+			} else if r.Intn(12) == 0 {
+				if r.Intn(3) == 0 {
+					e.shareState()
+				}
+				e.exportImport("")
+			}
 			switch k := r.Intn(100); {
 			case k < 40:
 				e.opRouteIn()
